@@ -456,11 +456,10 @@ func (a *agg) add(br *BatchResult) {
 	}
 }
 
-func check(p *Prop, tier string) int {
-	t0 := time.Now()
+// explore runs the simulated runs of one property (or sub-check) and returns what was seen.
+func explore(p *Prop, tier string, seed uint64) (*agg, *RunResult, *buildInfo) {
 	h := harnessByName(p.Harness)
 	bi := buildHarness(h)
-	seed := seedEnv()
 	known := loadKnown(p.ID)
 	total, chunk, wall := p.QuickRuns, p.QuickChunk, p.QuickWallS
 	if tier == "thorough" {
@@ -537,24 +536,75 @@ func check(p *Prop, tier string) int {
 		infra("%v", infraErr)
 	}
 	if a.runs == 0 && viol == nil {
-		infra("no run completed within the budget (wall %ds)", wall)
+		infra("no run of %s completed within the budget (wall %ds)", p.ID, wall)
+	}
+	for _, k := range sortedKeys(a.known) {
+		fmt.Printf("KNOWN-FINDING: property=%s %s (seen in %d runs)\n", p.Reported(), known.describe(k), a.known[k])
+	}
+	os.RemoveAll(filepath.Join(build, "run", p.ID, strconv.Itoa(os.Getpid())))
+	return a, viol, bi
+}
+
+// check runs a property's exploration plus the sub-checks listed in Prop.Also (other
+// harnesses deciding further clauses of the same property) and writes one evidence file.
+func (a *agg) merge(b *agg) {
+	a.runs += b.runs
+	a.truncated += b.truncated
+	a.leaked += b.leaked
+	a.steps += b.steps
+	a.contended += b.contended
+	a.simSeconds += b.simSeconds
+	for _, m := range []struct{ dst, src map[string]int }{{a.probes, b.probes}, {a.faults, b.faults}, {a.strat, b.strat}, {a.known, b.known}} {
+		for k, v := range m.src {
+			m.dst[k] += v
+		}
+	}
+	for _, m := range []struct{ dst, src map[uint64]bool }{{a.sched, b.sched}, {a.nontriv, b.nontriv}, {a.ends, b.ends}} {
+		for k := range m.src {
+			m.dst[k] = true
+		}
+	}
+	a.samples = append(a.samples, b.samples...)
+}
+
+func check(p *Prop, tier string) int {
+	t0 := time.Now()
+	seed := seedEnv()
+	a, viol, bi := explore(p, tier, seed)
+	vp := p
+	for _, id := range p.Also {
+		if viol != nil {
+			break
+		}
+		sub := propByID(id)
+		if sub == nil {
+			infra("unknown sub-check %s", id)
+		}
+		sub.parent = p
+		a2, v2, bi2 := explore(sub, tier, seed)
+		a.merge(a2)
+		for k, v := range bi2.Rewriter {
+			if bi.Rewriter == nil {
+				bi.Rewriter = map[string]any{}
+			}
+			bi.Rewriter[k] = v
+		}
+		if v2 != nil {
+			viol, vp = v2, sub
+		}
 	}
 	exit := 0
 	var replayPath string
 	if viol != nil {
-		replayPath = handleViolation(bi, p, tier, seed, viol)
+		replayPath = handleViolation(buildHarness(harnessByName(vp.Harness)), vp, tier, seed, viol)
 		exit = 1
 	}
-	for _, k := range sortedKeys(a.known) {
-		fmt.Printf("KNOWN-FINDING: property=%s %s (seen in %d runs)\n", p.ID, known.describe(k), a.known[k])
-	}
-	writeEvidence(p, h, bi, tier, seed, a, time.Since(t0).Seconds(), viol, replayPath)
+	writeEvidence(p, harnessByName(p.Harness), bi, tier, seed, a, time.Since(t0).Seconds(), viol, replayPath)
 	if exit == 1 {
 		fmt.Printf("VIOLATION property=%s replay=%s\n", p.ID, replayPath)
 	} else {
 		fmt.Printf("OK property=%s tier=%s runs=%d distinct_schedules=%d steps=%d sim_seconds=%.0f wall=%.1fs\n", p.ID, tier, a.runs, len(a.sched), a.steps, a.simSeconds, time.Since(t0).Seconds())
 	}
-	os.RemoveAll(filepath.Join(build, "run", p.ID, strconv.Itoa(os.Getpid())))
 	return exit
 }
 
@@ -731,8 +781,19 @@ func replayCmd(p *Prop, file string) int {
 	if err := json.Unmarshal(b, &rf); err != nil {
 		infra("replay file: %v", err)
 	}
+	report := p
 	if rf.Property != p.ID {
-		infra("replay file is for %s", rf.Property)
+		ok := false
+		for _, id := range p.Also {
+			if id == rf.Property {
+				ok = true
+				p = propByID(id)
+				p.parent = report
+			}
+		}
+		if !ok {
+			infra("replay file is for %s", rf.Property)
+		}
 	}
 	bi := buildHarness(harnessByName(p.Harness))
 	if rf.Params != nil {
@@ -758,10 +819,10 @@ func replayCmd(p *Prop, file string) int {
 	}
 	fmt.Printf("replay: clause=%s detail=%v; %s\n", r.Violation.Clause, r.Violation.Detail, same)
 	if k := loadKnown(p.ID); k.match(r.Violation) != "" {
-		fmt.Printf("KNOWN-FINDING: property=%s %s\n", p.ID, k.describe(k.match(r.Violation)))
+		fmt.Printf("KNOWN-FINDING: property=%s %s\n", report.ID, k.describe(k.match(r.Violation)))
 		return 0
 	}
-	fmt.Printf("VIOLATION property=%s replay=%s\n", p.ID, file)
+	fmt.Printf("VIOLATION property=%s replay=%s\n", report.ID, file)
 	return 1
 }
 
